@@ -150,7 +150,14 @@ func (w *replayerWorld) doPut() {
 			w.gcHi = w.now
 		}
 	}
-	if possiblyDue {
+	if possiblyDue && !wantErr {
+		w.gcHi = w.now
+	}
+	if possiblyDue && wantErr && !w.expiredReachable() {
+		// a rejected Put may or may not collect; whether it did is observable: if nothing
+		// expired is reachable any more, a collection ran (or none was needed) and the
+		// interval restarts; if expired messages are still there, no collection ran and a
+		// Put that restarts the interval anyway would postpone the collection that is due
 		w.gcHi = w.now
 	}
 	if surelyDue && !wantErr {
@@ -417,6 +424,17 @@ func entryTags(es []modelEntry) string {
 		t[i] = e.tag + "#" + e.id
 	}
 	return "[" + strings.Join(t, " ") + "]"
+}
+
+// expiredReachable reports whether some expired message is still reachable from the replayer.
+func (w *replayerWorld) expiredReachable() bool {
+	reach := reachableMessages(w.r)
+	for _, e := range w.all {
+		if w.expired(e, w.now) && reach[uintptr(unsafe.Pointer(e.msg))] {
+			return true
+		}
+	}
+	return false
 }
 
 // checkRetention is the C18 oracle.
